@@ -234,6 +234,25 @@ func runC08(c *Ctx) {
 		for _, u := range ups {
 			key := c.fnKey(f) + ":remote-label-write"
 			if c.fnKey(f) != snapPkg+".(*snapshotter).Prepare" {
+				// re-asserting the stored value (copying it from the snapshot's own stored labels) is not a new marking
+				if mu, ok := u.(*ssa.MapUpdate); ok {
+					copied := false
+					for _, v := range append([]ssa.Value{mu.Value}, reachingVals(mu.Value)...) {
+						v = stripConv(v)
+						if ex, ok := v.(*ssa.Extract); ok {
+							v = ex.Tuple
+						}
+						if lk, ok := v.(*ssa.Lookup); ok {
+							if ks, ok := constString(lk.Index); ok && ks == rl {
+								copied = true
+							}
+						}
+					}
+					if copied {
+						c.ok(key, u.Pos(), "stored remote mark re-asserted (value copied from the stored labels)")
+						continue
+					}
+				}
 				c.bad(key, u.Pos(), "remote label written outside Prepare")
 				continue
 			}
@@ -559,6 +578,7 @@ func runC08(c *Ctx) {
 		}
 		c.verdict(c.fnKey(mountsFn)+":lowerdir-order", mountsFn.Pos(), good, "lowerdir = upperPath(ParentIDs[0]):…:upperPath(ParentIDs[n-1])", "lower directories are not listed in ParentIDs order: "+why)
 	}
+	clauseUpdateKeepsRemoteMark(c, "C08.g")
 	c.assume("containerd's storage package returns ParentIDs nearest parent first and IDMap/WalkInfo reflect the transaction's view")
 }
 
@@ -870,6 +890,7 @@ func runC09(c *Ctx) {
 	_ = fns
 
 	clauseMountRegistrationRolledBack(c, "C09.g")
+	clauseKnownMountIsLive(c, "C09.h")
 	c.clause("C09.f", "T5", "orphans are reclaimable: the cleanup scan lists every directory and keeps exactly the ids in storage.IDMap", 2)
 	if f := c.mustFn(snapPkg, "(*snapshotter).getCleanupDirectories"); f != nil {
 		idm := callsIn(f, func(id string, _ ssa.CallInstruction) bool { return strings.HasSuffix(id, "storage.IDMap") })
